@@ -29,7 +29,7 @@ const (
 	KSeqTry
 	KSeqFirstOrAll
 	KNT
-	KRTrim // text.RightTrim(kid, WsSpaces): only in the C07 sharing shapes
+	KRTrim    // text.RightTrim(kid, WsSpaces): only in the C07 sharing shapes
 	KSuppress // combinator.SuppressError(kid)
 	KSingle   // combinator.Single(kid): only in the C07 sharing shapes
 )
@@ -44,36 +44,36 @@ type G struct {
 
 // Grammar is a set of rules; rule 0 is the root nonterminal.
 type Grammar struct {
-	Name   string
-	Rules  []*G
-	Finite bool // finitely many distinct trees per input
-	LRFree bool // no left recursion (C03)
+	Name      string
+	Rules     []*G
+	Finite    bool // finitely many distinct trees per input
+	LRFree    bool // no left recursion (C03)
 	Recursive bool
-	InAlpha []byte // when set: the input alphabet used by C17 (instead of all terminals)
-	MaxN   int // 0: no limit; otherwise inputs longer than this are outside the claim (result sets explode)
+	InAlpha   []byte // when set: the input alphabet used by C17 (instead of all terminals)
+	MaxN      int    // 0: no limit; otherwise inputs longer than this are outside the claim (result sets explode)
 }
 
-func T(c byte) *G          { return &G{K: KTerm, Ch: c} }
-func E() *G                { return &G{K: KEmpty} }
-func S(k ...*G) *G         { return &G{K: KSeq, Kids: k} }
-func A(k ...*G) *G         { return &G{K: KAny, Kids: k} }
-func C(k ...*G) *G         { return &G{K: KChoice, Kids: k} }
-func O(g *G) *G            { return &G{K: KOpt, Kids: []*G{g}} }
-func M(g *G) *G            { return &G{K: KMany, Kids: []*G{g}} }
-func M1(g *G) *G           { return &G{K: KMany1, Kids: []*G{g}} }
-func SB(v, s *G) *G        { return &G{K: KSepBy, Kids: []*G{v, s}} }
-func SB1(v, s *G) *G       { return &G{K: KSepBy1, Kids: []*G{v, s}} }
-func ST(k ...*G) *G        { return &G{K: KSeqTry, Kids: k} }
-func SF(a, b *G) *G        { return &G{K: KSeqFirstOrAll, Kids: []*G{a, b}} }
-func N(i int) *G           { return &G{K: KNT, NT: i} }
-func RT(g *G) *G           { return &G{K: KRTrim, Kids: []*G{g}} }
-func SUP(g *G) *G          { return &G{K: KSuppress, Kids: []*G{g}} }
-func SG(g *G) *G           { return &G{K: KSingle, Kids: []*G{g}} }
+func T(c byte) *G    { return &G{K: KTerm, Ch: c} }
+func E() *G          { return &G{K: KEmpty} }
+func S(k ...*G) *G   { return &G{K: KSeq, Kids: k} }
+func A(k ...*G) *G   { return &G{K: KAny, Kids: k} }
+func C(k ...*G) *G   { return &G{K: KChoice, Kids: k} }
+func O(g *G) *G      { return &G{K: KOpt, Kids: []*G{g}} }
+func M(g *G) *G      { return &G{K: KMany, Kids: []*G{g}} }
+func M1(g *G) *G     { return &G{K: KMany1, Kids: []*G{g}} }
+func SB(v, s *G) *G  { return &G{K: KSepBy, Kids: []*G{v, s}} }
+func SB1(v, s *G) *G { return &G{K: KSepBy1, Kids: []*G{v, s}} }
+func ST(k ...*G) *G  { return &G{K: KSeqTry, Kids: k} }
+func SF(a, b *G) *G  { return &G{K: KSeqFirstOrAll, Kids: []*G{a, b}} }
+func N(i int) *G     { return &G{K: KNT, NT: i} }
+func RT(g *G) *G     { return &G{K: KRTrim, Kids: []*G{g}} }
+func SUP(g *G) *G    { return &G{K: KSuppress, Kids: []*G{g}} }
+func SG(g *G) *G     { return &G{K: KSingle, Kids: []*G{g}} }
 
 var (
-	a = T('a')
-	b = T('b')
-	x = T('x')
+	a  = T('a')
+	b  = T('b')
+	x  = T('x')
 	nl = T('\n')
 )
 
@@ -124,6 +124,9 @@ func Curated() []*Grammar {
 		{Name: "R->(a?|Q)x|Qb;Q->b?|x", Rules: []*G{A(S(A(O(a), N(1)), x), S(N(1), b)), A(O(b), x)}, Finite: true, LRFree: true},
 		{Name: "choice((ab)?,x)b?", Rules: []*G{S(C(O(S(a, b)), x), O(b))}, Finite: true, LRFree: true},
 		{Name: "R->Q?a|Q?b;Q->sup(x)", Rules: []*G{A(S(O(N(1)), a), S(O(N(1)), b)), SUP(x)}, Finite: true, LRFree: true},
+		{Name: "any((abx)?,a)", Rules: []*G{A(O(S(a, b, x)), a)}, Finite: true, LRFree: true},
+		{Name: "any((abx)?,a)b?", Rules: []*G{S(A(O(S(a, b, x)), a), O(b))}, Finite: true, LRFree: true},
+		{Name: "A->Ax|X;X->A?b", Rules: []*G{A(S(N(0), x), N(1)), S(O(N(0)), b)}, Finite: true, Recursive: true},
 		{Name: "(a|nl)*b", Rules: []*G{S(M(A(a, nl)), b)}, Finite: true, LRFree: true},
 		{Name: "L->L nl a|a", Rules: []*G{A(S(N(0), nl, a), a)}, Finite: true, Recursive: true},
 	})
@@ -213,7 +216,14 @@ func Systematic(seed, k int) *Grammar {
 				case l >= 2 && !(choice && j == 0 && !Unstratified) && ((j == 0 && next(3) == 0) || (j > 0 && next(8) == 0)):
 					// an optional group of one or two terminals, or a repetition
 					t1, n1 := term()
-					switch next(3) {
+					switch next(4) {
+					case 3:
+						// an optional nonterminal (hidden recursion through a nullable prefix)
+						if next(2) == 0 {
+							g, n = O(N(0)), "(P)?"
+						} else {
+							g, n = O(N(1)), "(Q)?"
+						}
 					case 0:
 						g, n = O(t1), "("+n1+")?"
 					case 1:
@@ -303,6 +313,7 @@ func Sharing() []*Grammar {
 		{Name: "R->(a?|Q)|Q;Q->b?|x|xx", Rules: []*G{A(A(O(a), N(1)), N(1)), A(O(b), x, S(x, x))}, Finite: true},
 		{Name: "R->single(M)x|Mb;M->(a)|ab", Rules: []*G{A(S(SG(N(1)), x), S(N(1), b)), A(S(a), S(a, b))}, Finite: true},
 		{Name: "R->Mb|single(M)x|Mx;M->(a)|ab|a+", Rules: []*G{A(S(N(1), b), S(SG(N(1)), x), S(N(1), x)), A(S(a), S(a, b), M1(a))}, Finite: true},
+		{Name: "R->rtrim(xM)b|xMa;M->a", Rules: []*G{A(S(RT(S(x, N(1))), b), S(x, N(1), a)), a}, Finite: true},
 		{Name: "R->rtrim(M)b|Mx;M->a", Rules: []*G{A(S(RT(N(1)), b), S(N(1), x)), a}, Finite: true},
 		{Name: "R->rtrim(M)b|Mx;M->a|aa", Rules: []*G{A(S(RT(N(1)), b), S(N(1), x)), A(a, S(a, a))}, Finite: true},
 		{Name: "R->Mx|rtrim(M)b;M->a", Rules: []*G{A(S(N(1), x), S(RT(N(1)), b)), a}, Finite: true},
@@ -441,6 +452,10 @@ type Wrap struct {
 	NoMemo bool
 	// MemoNode additionally memoizes the sub-parsers it selects (C03).
 	MemoNode func(e *G) bool
+	// TrimOperand wraps the direct operand of a RightTrim.
+	TrimOperand func(p parsley.Parser) parsley.Parser
+	// NameSeq, when set, also names every SeqOf as "seq".
+	NameSeq bool
 	// Name, when set, names every Any/Choice as "expr".
 	Name bool
 }
@@ -507,7 +522,11 @@ func (bt *Built) build(e *G, w *Wrap) parsley.Parser {
 	case KNT:
 		return &bt.NTs[e.NT]
 	case KSeq:
-		p = combinator.SeqOf(kids()...)
+		sq := combinator.SeqOf(kids()...)
+		if w.NameSeq {
+			sq = sq.Name("seq")
+		}
+		p = sq
 	case KAny:
 		f := combinator.Any(kids()...)
 		if w.Name {
@@ -535,7 +554,11 @@ func (bt *Built) build(e *G, w *Wrap) parsley.Parser {
 	case KSeqFirstOrAll:
 		p = combinator.SeqFirstOrAll(kids()...)
 	case KRTrim:
-		p = text.RightTrim(bt.build(e.Kids[0], w), text.WsSpaces)
+		kid := bt.build(e.Kids[0], w)
+		if w.TrimOperand != nil {
+			kid = w.TrimOperand(kid)
+		}
+		p = text.RightTrim(kid, text.WsSpaces)
 	case KSuppress:
 		p = combinator.SuppressError(bt.build(e.Kids[0], w))
 	case KSingle:
